@@ -118,6 +118,10 @@ func (r *scanner) rangeWithLimit(ctx context.Context, start []byte, end []byte, 
 	if err != nil {
 		return nil, err
 	}
+	// see scan: a compaction accepted while the worker ran may have removed versions under it
+	if err = r.checkCompactRace(ctx, revision, false); err != nil {
+		return nil, err
+	}
 	return receiver.result, nil
 }
 
@@ -294,6 +298,15 @@ func (r *scanner) scan(ctx context.Context, start []byte, end []byte, revision u
 	for _, e := range errList {
 		if e != nil {
 			return 0, e
+		}
+	}
+
+	if !compact {
+		// not every engine reads from the snapshot taken above: a compaction accepted while the workers
+		// ran may have removed versions under them. The compaction revision is recorded before anything
+		// is deleted, so a second look after the scan tells whether this result can be trusted
+		if err = r.checkCompactRace(ctx, revision, false); err != nil {
+			return 0, err
 		}
 	}
 
